@@ -65,9 +65,16 @@ end L
 namespace T
 open Sop.StoreRepoCommit
 
+def faultOf : String → Option Fault
+  | "none" => some .none | "before" => some .before | "after" => some .after | _ => none
+
 def parseOp (ws : List String) : Option StoreRepoCommit.Op :=
   match ws with
   | ["begin"] => some .begin
+  | ["newlog", n, slot, u, f] => do pure (.newLog n (← parseOpts slot u) (← faultOf f))
+  | ["newadd", n, slot, u, f] => do pure (.newAdd n (← parseOpts slot u) (← faultOf f))
+  | ["crash"] => some .crash
+  | ["recover"] => some .recover
   | ["new", n, slot, u] => do pure (.new n (← parseOpts slot u))
   | ["open", n] => some (.open_ n)
   | ["add", n, k, v] => do pure (.add n (← k.toInt?) v)
@@ -83,7 +90,7 @@ def stepLine (s : StoreRepoCommit.State) (ws : List String) : StoreRepoCommit.St
   match ws with
   | ["dump"] => (s, StoreRepoCommit.dump s)
   | _ => match parseOp ws with
-    | some op => StoreRepoCommit.step false s op
+    | some op => StoreRepoCommit.step {} s op
     | none => (s, "bad-op")
 end T
 
